@@ -125,3 +125,23 @@ Proof.
   intros fuel file links txt t errs st ss P E. eapply core_idents_are_id_tokens; [|exact E].
   eapply grammar_ident_shape. exact P.
 Qed.
+
+(** "a program without syntax errors is Core" is FALSE in general: a bits length >= 2^63 parses without errors
+    (the lexer accepts every u64) and is refused by the bridge, exactly as coreast.rs refuses it
+    (`Integer::value` wraps to a negative i64).  So error-free programs are Core only up to such semantic
+    refusals; the self-test observes that these are the only ones on its inputs. *)
+Definition bridge_refusal_text : text := [100;101;102;32;100;32;123;32;98;105;116;115;60;49;56;52;52;54;55;52;52;48;55;51;55;48;57;53;53;49;54;49;53;62;32;97;59;32;125].
+Example error_free_not_core_refuted :
+  exists t st, parse_with 200 grammar_prog grammar_entry bridge_refusal_text = ParseOk t [] st /\
+               core_of_tree 0 [] t = Err "negative bits length"%string.
+Proof.
+  destruct (parse_with 200 grammar_prog grammar_entry bridge_refusal_text) as [t errs st| |] eqn:P;
+    [|vm_compute in P; discriminate P|vm_compute in P; discriminate P].
+  assert (Q : (match parse_with 200 grammar_prog grammar_entry bridge_refusal_text with
+               | ParseOk t0 e0 _ => match e0 with [] => true | _ => false end &&
+                                    match core_of_tree 0 [] t0 with
+                                    | Err why => String.eqb why "negative bits length" | _ => false end
+               | _ => false end) = true) by (vm_compute; reflexivity).
+  rewrite P in Q. destruct errs; [|discriminate Q]. cbn [andb] in Q. exists t, st. split; [reflexivity|].
+  destruct (core_of_tree 0 [] t) as [ss|why|]; try discriminate Q. apply String.eqb_eq in Q. subst. reflexivity.
+Qed.
